@@ -29,6 +29,17 @@ def verify_class(ev):
     return "%s|zip=%s|%s|A=%s|R=%s|S=%s|len=%s" % (ev["api"], ev["zip"], ev["variant"], ev["A"]["kind"], ev["R"]["kind"], ev["srule"], ev["siglen"])
 
 
+def batch_extra(ctx):
+    """the batch driver restricted to the property's kinds of entries (selection by -prop in cmd/driver/batch.go)"""
+    import glob
+    cases = gen_cases(ctx, "BatchCases", "batch_cases.ndjson")
+    trace = os.path.join(ctx.work, "batch.ndjson")
+    out = run_driver(ctx, build_driver(ctx), "batch", trace, cases=cases, extra=["-shards", "6"])
+    ctx.log("batch driver:", out.strip())
+    mism = validate_trace(ctx, "TraceBatch.tla", "TraceBatch.cfg", trace, presharded=sorted(glob.glob(trace + ".*")), classify=batch_class)
+    report_mismatches(ctx, mism)
+
+
 def verify_family(ctx, mc_cfgs):
     for cfg in mc_cfgs:
         model_check(ctx, "MCVerify.tla", cfg)
@@ -59,18 +70,21 @@ def c01(ctx):
 @check("C04")
 def c04(ctx):
     verify_family(ctx, ["MCVerify_quick.cfg"] if not ctx.thorough else ["MCVerify_quick.cfg", "MCVerify_scalars.cfg"])
+    batch_extra(ctx)      # S >= L entries at every position of every chunking (marked, no forced fallback)
     finish(ctx, VERIFY_RULE + "; plus direct calls of the unexported scMinimal on a boundary-dense set", ASSUME_COMMON)
 
 
 @check("C05")
 def c05(ctx):
     verify_family(ctx, ["MCVerify_quick.cfg"] if not ctx.thorough else ["MCVerify_quick.cfg", "MCVerify_thorough.cfg"])
+    batch_extra(ctx)      # ZIP-215 batches with small-order entries, alone and next to other failures (fallback path)
     finish(ctx, VERIFY_RULE, ASSUME_COMMON)
 
 
 @check("C09")
 def c09(ctx):
     verify_family(ctx, ["MCVerify_quick.cfg"])
+    batch_extra(ctx)      # small-order / mixed-order / undecodable key and R at every position of every chunking
     curve_family(ctx)     # mul8 events: [8]P for decodable strings of unknown discrete log, audited projection
     finish(ctx, VERIFY_RULE + "; plus direct calls of isSmallOrderVartime", ASSUME_COMMON)
 
